@@ -128,7 +128,11 @@ def run(ctx, replay=None):
                 if len(s["ops"]) >= 5}
     nops = sum(len(s["ops"]) + len(s.get("par") or []) for s in scen)
     mid = scen[len(scen) // 2]
-    return {
+    helper = {}
+    if ctx.pid == "C06":
+        import fam_contentops
+        helper = fam_contentops.extra(ctx)
+    return dict(helper, **{
         "evaluations": nops, "distinct_nontrivial": len(distinct),
         "rule": "one evaluation = one operation of a history executed on a real store (followed by the observations); "
                 "distinct_nontrivial counts distinct histories (store kind, universe, options, operation sequence) with "
@@ -137,4 +141,4 @@ def run(ctx, replay=None):
         "samples": [{"scenario": mid, "trace": trace_of(summ["files"][0], mid["id"], 40)}],
         "histories": summ["histories"], "per_kind": summ["per_kind"], "exhaustive": False,
         "concurrent_tails": sum(1 for s in scen if s.get("par")),
-    }
+    })
